@@ -87,7 +87,7 @@ func (r *Recomposer) registerComposer(rt reflect.Type, fun RecomposeFunc) (*comp
 		return nil, fmt.Errorf("only structs can be recomposed. %s is not a struct type", rt)
 	}
 	c := r.composers[full]
-	if c == nil {
+	if c == nil || c.rtype != rt {
 		c = &composer{
 			fun:   fun,
 			short: rt.Name(),
@@ -95,6 +95,11 @@ func (r *Recomposer) registerComposer(rt reflect.Type, fun RecomposeFunc) (*comp
 			rtype: rt,
 		}
 		c.indexes = indexType(c.rtype)
+		if len(c.short) == 0 {
+			// Anonymous types all have the same (empty) name and can not
+			// be looked up by name.
+			return c, nil
+		}
 		r.composers[c.short] = c
 		r.composers[c.full] = c
 	} else {
@@ -115,12 +120,22 @@ func (r *Recomposer) registerComposer(rt reflect.Type, fun RecomposeFunc) (*comp
 		case reflect.Array, reflect.Slice, reflect.Map, reflect.Ptr:
 			ft = ft.Elem()
 		}
-		if _, has := r.composers[ft.Name()]; has {
+		if r.composerFor(ft) != nil {
 			continue
 		}
 		_, _ = r.registerComposer(ft, nil)
 	}
 	return c, nil
+}
+
+// composerFor returns the composer registered for exactly the type rt. A
+// type name is not unique (types in different packages or functions can share
+// it and anonymous types have none) so the type itself is verified.
+func (r *Recomposer) composerFor(rt reflect.Type) *composer {
+	if c := r.composers[rt.PkgPath()+"/"+rt.Name()]; c != nil && c.rtype == rt {
+		return c
+	}
+	return nil
 }
 
 func (r *Recomposer) registerAnyComposer(rt reflect.Type, fun RecomposeAnyFunc) (*composer, error) {
@@ -406,7 +421,7 @@ func (r *Recomposer) recomp(v any, rv reflect.Value) {
 	case reflect.Struct:
 		vm, ok := (v).(map[string]any)
 		if !ok {
-			if c := r.composers[rv.Type().Name()]; c != nil && c.any != nil {
+			if c := r.composerFor(rv.Type()); c != nil && c.any != nil {
 				if val, err := c.any(v); err == nil {
 					if val == nil {
 						break
@@ -444,7 +459,7 @@ func (r *Recomposer) recomp(v any, rv reflect.Value) {
 			return
 		}
 		var im map[string]reflect.StructField
-		if c := r.composers[rv.Type().Name()]; c != nil {
+		if c := r.composerFor(rv.Type()); c != nil {
 			if c.fun != nil {
 				if val, err := c.fun(vm); err == nil {
 					vv := reflect.ValueOf(val)
